@@ -224,6 +224,7 @@ class _Workload:
             self.eagain_den = draw_rate(world, "sw.eagain", (0, 0, 8, 3))
             self.eintr_den = draw_rate(world, "sw.eintr", (0, 0, 0, 6))
         self.calls: list[tuple[int, int, str]] = []  # (sender, seq, outcome)
+        self.inflight = 0
         self.total_bytes = sum(8 + p[2] + 1 for lst in self.plan for _, p in lst)
         if self.capacity < self.total_bytes:
             world.fault("capacity_small")
@@ -250,6 +251,10 @@ class _Workload:
             if stagger:
                 await asyncio.sleep(stagger * TICK)
             self.world.log("send_call", self.name, packet[0], packet[1])
+            if self.inflight:
+                self.world.probe("call-while-%d-other-calls-outstanding" % min(self.inflight, 3))
+            self.inflight += 1
+            it = self.world.counters["loop_iterations"]
             try:
                 await send_packet(packet)
             except Exception as exc:  # the property: every call succeeds
@@ -259,6 +264,10 @@ class _Workload:
                 self.calls.append((packet[0], packet[1], "ok"))
                 self.world.log("send_ok", self.name, packet[0], packet[1])
                 self.world.progress(1)
+                if self.world.counters["loop_iterations"] != it:
+                    self.world.probe("send-suspended")
+            finally:
+                self.inflight -= 1
 
     async def run_senders(self, send_packet: Callable[[Any], Any]) -> None:
         loop = asyncio.get_running_loop()
